@@ -13,15 +13,17 @@ hypothesis is stated where it is used.
 
 What the proofs add and what they do not.  Proof content: the stable-sort characterisation of the read-back order
 (`byElement_sorted/_filter/_perm`), the importer's mesh index = the exported connectivity (`meshIndex_connectivity`),
-the alignment of element nodal values with the rebuilt index under distinct keys (`varIndex = byElement keys`,
-`find_key_of_nodup`), `firstValid` on a per-node constant column (`node_value_is_own_cells`), the success theorems
-(`addGeometry_succeeds`, … : every check of the model passes for a valid call; the verdict does not depend on earlier
-calls) and the persistence / step theorems (a stored variable or set is read back after any later history, by any
-chain shape).  Near-definitional: `import_repeatable` (make_mesh overwrites the whole session), the three `failed_*`
-theorems (the model's error branches return the file they were given / delete the group they appended) and the
-`filter_*` theorems (look-up of an appended set).  For those clauses the tie to the real code is the correspondence
-check and the oracle (dump of the whole HDF5 file before/after every failing call, including storage failures
-injected after data were written), not the proof.
+the alignment of element nodal values with the rebuilt index: the importer's `varIndex` is the exporter's target order
+`enTarget` because the element ids of an exported geometry are distinct (`varIndex_eq_enTarget`, `filter_blocks`), the target
+order is the geometry's mesh index for EVERY row order of the variable's frame (`enTarget_any_row_order`), and a key finds its
+own row under distinct keys (`rowAt_of_mem`, `rowAt_own`); `firstValid` on a per-node constant column
+(`node_value_is_own_cells`), the success theorems (`addGeometry_succeeds`, `addVariable_succeeds`, … : every check of the model
+passes for a valid call; the verdict does not depend on earlier calls) and the persistence / step theorems (a stored variable
+or set is read back after any later history, by any chain shape).  Near-definitional: `import_repeatable` (make_mesh overwrites
+the whole session), the `failed_*` / `refused_*` theorems (the model's error branches return the file they were given / delete
+the group they appended) and the `filter_*` theorems (look-up of an appended set).  For those clauses the tie to the real code
+is the correspondence check and the oracle (dump of the whole HDF5 file before/after every failing call, including storage
+failures injected after data were written), not the proof.
 -/
 import Proofs.Lemmas.Vmap
 
@@ -131,10 +133,11 @@ theorem joinCoords_step [Cell V] (f : File V) (geom : String) (g : Geometry V) (
   simp only [impStep, hs, hg, joinBlock, hx.ncoord, hdisj, Bool.false_eq_true, if_false, hmap]
 
 /-- join_variable of a NODE variable stored earlier from `fr` (any calls may have followed), on any session state of that
-geometry. -/
+geometry.  The stored record in `hv` is `buildVariable 2 g' fr idx` for every geometry `g'` (`buildVariable_two`). -/
 theorem joinVar_step_node_stored [Cell V] (f : File V) (state geom var : String) (fr : Frame V) (idx : List Nat)
     (g : Geometry V) (hg : f.geoms.lookup geom = some g)
-    (hv : f.vars.lookup (state, geom, var) = some (buildVariable 2 fr idx)) (hgrp : (state, geom) ∈ f.groups)
+    (hv : f.vars.lookup (state, geom, var)
+      = some ⟨2, idx.length, nodeIds fr, (nodeIds fr).map (nodeValue fr.rows idx)⟩) (hgrp : (state, geom) ∈ f.groups)
     (s : Session V) (labels : List String) (rows : MeshRows V) (hs : s.mesh = some (labels, rows)) (hgeo : s.geometry = geom)
     (st : Option String) (hst : pickState st s.state = some state) (newLabels : List String)
     (hdisj : newLabels.any (fun l => labels.contains l) = false) (hlen : newLabels.length = idx.length) :
@@ -154,62 +157,75 @@ theorem joinVar_step_node_stored [Cell V] (f : File V) (state geom var : String)
     intro r _
     rw [lookup_zip_map]
   simp only [impStep, hs, hst, hg, hgrp', Bool.not_true, Bool.false_eq_true, if_false, resolveCols, hv,
-    buildVariable_two, if_true, hne, hne2, joinBlock, hdisj, varAt, hmap]
+    if_true, hne, hne2, joinBlock, hdisj, varAt, hmap]
 
-/-- the same for an ELEMENT_NODAL variable: the cells of the frame row with the mesh row's (element, node) key. -/
-theorem joinVar_step_element_nodal_stored [Cell V] (f : File V) (state geom var : String) (fr : Frame V)
-    (idx : List Nat) (g : Geometry V) (cidx : List Nat)
+/-- the same for an ELEMENT_NODAL variable stored from a frame `vfr` (any row order; it may differ from the geometry's
+frame `fr`): a mesh row whose (element, node) key is one of the stored pairs of the elements occurring in `vfr`
+(`enTarget g vfr`) gets the cells of THE ROW OF `vfr` WITH THAT KEY; other mesh rows get NaN cells. -/
+theorem joinVar_step_element_nodal_stored [Cell V] (f : File V) (state geom var : String) (fr vfr : Frame V)
+    (idx : List Nat) (g : Geometry V) (cidx : List Nat) (v : Variable V)
     (hg : f.geoms.lookup geom = some g) (hx : ExportedFrom g fr cidx)
-    (hv : f.vars.lookup (state, geom, var) = some (buildVariable 6 fr idx)) (hgrp : (state, geom) ∈ f.groups)
+    (hb : buildVariable 6 g vfr idx = some v)
+    (hv : f.vars.lookup (state, geom, var) = some v) (hgrp : (state, geom) ∈ f.groups)
     (s : Session V) (labels : List String) (rows : MeshRows V) (hs : s.mesh = some (labels, rows)) (hgeo : s.geometry = geom)
     (st : Option String) (hst : pickState st s.state = some state) (newLabels : List String)
     (hdisj : newLabels.any (fun l => labels.contains l) = false) (hlen : newLabels.length = idx.length) :
     impStep f s (.joinVar var st (some newLabels))
       = ({ s with state := some state, mesh := some (labels ++ newLabels, rows.map (fun r => (r.1, r.2 ++
-          cellsOf idx.length (((byElement fr.rows).find? (fun x => x.key == r.1)).map (selRow idx))))) }, none) := by
+          cellsOf idx.length (if r.1 ∈ enTarget g vfr then (rowAt vfr.rows r.1).map (selRow idx) else none)))) },
+         none) := by
   subst hgeo
+  obtain ⟨rfl, _, hsub, _⟩ := buildVariable_six_some hb
   have hgrp' : f.groups.contains (state, s.geometry) = true := by simpa using hgrp
   have hne : ¬ (newLabels.length ≠ idx.length) := by simp [hlen]
-  -- the index the importer rebuilds is the exported frame grouped by element
-  have hidx : varIndex g ⟨6, idx.length, elemIds fr, (byElement fr.rows).map (selRow idx)⟩
-      = (byElement fr.rows).map Row.key := by
-    unfold varIndex
-    simp only [hx.mesh]
-    have : ∀ e, ((byElement fr.rows).map Row.key).filter (fun k => k.1 == e) = (elemRows fr.rows e).map Row.key := by
-      intro e
-      rw [← byElement_filter, List.filter_map]
-      rfl
-    simp only [this]
-    unfold byElement elemIds
-    rw [List.map_flatMap]
-  have hne2 : ¬ (((byElement fr.rows).map Row.key).length ≠ ((byElement fr.rows).map (selRow idx)).length) := by simp
+  have hsome : ∀ k ∈ enTarget g vfr, ((rowAt vfr.rows k).map (selRow idx)).isSome = true := by
+    intro k hk
+    obtain ⟨r, hr, _⟩ := rowAt_of_mem (hsub k hk)
+    rw [hr]; rfl
+  -- the index the importer rebuilds is the order in which the exporter wrote the values
+  have hidx : varIndex g ⟨6, idx.length, (enElements g vfr).map (·.1),
+        (enTarget g vfr).filterMap (fun k => (rowAt vfr.rows k).map (selRow idx))⟩ = enTarget g vfr :=
+    varIndex_eq_enTarget g vfr _ (exported_elem_ids_nodup hx) rfl
+  have hne2 : ¬ ((enTarget g vfr).length
+      ≠ ((enTarget g vfr).filterMap (fun k => (rowAt vfr.rows k).map (selRow idx))).length) := by
+    rw [length_filterMap_of_isSome _ _ hsome]; simp
   have h62 : ¬ ((6 : Nat) = 2) := by decide
   have hmap : rows.map (fun r => (r.1, r.2 ++ cellsOf idx.length
-        ((((byElement fr.rows).map Row.key).zip ((byElement fr.rows).map (selRow idx))).lookup r.1)))
+        (((enTarget g vfr).zip ((enTarget g vfr).filterMap (fun k => (rowAt vfr.rows k).map (selRow idx)))).lookup r.1)))
       = rows.map (fun r => (r.1, r.2 ++
-          cellsOf idx.length (((byElement fr.rows).find? (fun x => x.key == r.1)).map (selRow idx)))) := by
+          cellsOf idx.length (if r.1 ∈ enTarget g vfr then (rowAt vfr.rows r.1).map (selRow idx) else none))) := by
     apply List.map_congr_left
     intro r _
-    rw [lookup_zip_map_map]
+    rw [lookup_zip_filterMap _ _ hsome]
   simp only [impStep, hs, hst, hg, hgrp', Bool.not_true, Bool.false_eq_true, if_false, resolveCols, hv,
-    buildVariable_six, h62, hne, hidx, hne2, joinBlock, hdisj, varAt, hmap]
+    h62, hne, hidx, hne2, joinBlock, hdisj, varAt, hmap]
 
-/-- Remark to `joinVar_step_element_nodal*`: in a valid frame (distinct (element, node) pairs) the look-up finds the
-frame row with that key. -/
+/-- **The stored order does not depend on the row order of the variable's frame**: when the keys of `vfr` are a
+rearrangement of the keys of the geometry's frame `fr`, the (element, node) pairs the values are written for are the mesh
+index of the geometry (`roundtrip_mesh`), whatever the order of `vfr`'s rows. -/
+theorem enTarget_any_row_order [Cell V] (g : Geometry V) (fr vfr : Frame V) (cidx : List Nat) (hx : ExportedFrom g fr cidx)
+    (hperm : (vfr.rows.map Row.key).Perm (fr.rows.map Row.key)) :
+    enTarget g vfr = (byElement fr.rows).map Row.key ∧ enTarget g vfr = meshIndex g := by
+  have h := (enTarget_of_covering hx (eids_of_keys_perm hperm)).2
+  exact ⟨h, h.trans hx.mesh.symm⟩
+
+/-- Remark to `joinVar_step_element_nodal*` and the round trip: in a frame with distinct (element, node) pairs the look-up
+finds the frame row with that key. -/
 theorem find_own_row {fr : Frame V} (hvalid : (fr.rows.map Row.key).Nodup) {r : Row V} (hr : r ∈ fr.rows)
-    {k : Int × Int} (hk : k = r.key) : (byElement fr.rows).find? (fun x => x.key == k) = some r := by
+    {k : Int × Int} (hk : k = r.key) : rowAt fr.rows k = some r := by
   subst hk
-  exact find_key_of_nodup hvalid (fun x => mem_byElement) hr
+  exact rowAt_own hvalid hr
 
 /-- What a successful `add_variable` leaves in the file for the step theorems. -/
 theorem addVariable_stored [Cell V] (f : File V) (state geom var : String) (fr : Frame V)
     (cols : Option (List String)) (loc : Option Nat) (h : (addVariable f state geom var fr cols loc).2 = none) :
-    ∃ names l idx, resolveCols var cols = some names ∧ resolveLoc var loc = some l ∧ colIdx fr.cols names = some idx ∧
+    ∃ g names l idx v, f.geoms.lookup geom = some g ∧ resolveCols var cols = some names ∧ resolveLoc var loc = some l ∧
+      colIdx fr.cols names = some idx ∧ buildVariable l g fr idx = some v ∧
       (addVariable f state geom var fr cols loc).1.geoms = f.geoms ∧
       (state, geom) ∈ (addVariable f state geom var fr cols loc).1.groups ∧
-      (addVariable f state geom var fr cols loc).1.vars.lookup (state, geom, var) = some (buildVariable l fr idx) := by
-  obtain ⟨names, l, idx, h1, h2, _, h4, h5, h6, h7⟩ := addVariable_ok h
-  exact ⟨names, l, idx, h1, h2, h4, h5, by simpa using h6, h7⟩
+      (addVariable f state geom var fr cols loc).1.vars.lookup (state, geom, var) = some v := by
+  obtain ⟨g, names, l, idx, v, hg, h1, h2, _, _, h4, hb, h5, h6, h7, _⟩ := addVariable_ok h
+  exact ⟨g, names, l, idx, v, hg, h1, h2, h4, hb, h5, by simpa using h6, h7⟩
 
 /-- join_variable of a NODE variable just exported from `fr`, on any session state of that geometry. -/
 theorem joinVar_step_node [Cell V] (f : File V) (state geom var : String) (fr : Frame V) (cols : Option (List String))
@@ -223,37 +239,67 @@ theorem joinVar_step_node [Cell V] (f : File V) (state geom var : String) (fr : 
         impStep (addVariable f state geom var fr cols loc).1 s (.joinVar var st (some newLabels))
           = ({ s with state := some state, mesh := some (labels ++ newLabels, rows.map (fun r => (r.1, r.2 ++
               cellsOf idx.length (if r.1.2 ∈ nodeIds fr then some (nodeValue fr.rows idx r.1.2) else none)))) }, none)) := by
-  obtain ⟨names, l, idx, h1, h2, h4, h5, h6, h7⟩ := addVariable_stored f state geom var fr cols loc h
+  obtain ⟨g, names, l, idx, v, hg, h1, h2, h4, hb, h5, h6, h7⟩ := addVariable_stored f state geom var fr cols loc h
   rw [hloc] at h2
   obtain rfl : 2 = l := by simpa using h2
+  rw [buildVariable_two] at hb
+  obtain rfl := Option.some.inj hb
   refine ⟨names, idx, h1, h4, fun hlen => ?_⟩
-  have hgs : (f.geoms.lookup geom).isSome = true := by
-    unfold addVariable at h
-    split at h
-    · simp at h
-    · rename_i hh; simpa using hh
-  obtain ⟨g, hg⟩ := Option.isSome_iff_exists.1 hgs
   exact joinVar_step_node_stored _ state geom var fr idx g (by rw [h5]; exact hg) h7 h6 s labels rows hs hgeo st hst
     newLabels hdisj (by rw [hlen, colIdx_length h4])
 
-theorem joinVar_step_element_nodal [Cell V] (f : File V) (state geom var : String) (fr : Frame V)
+/-- join_variable of an ELEMENT_NODAL variable just exported from a frame `vfr` (any row order, possibly only some whole
+elements of the geometry), on any session state of that geometry. -/
+theorem joinVar_step_element_nodal [Cell V] (f : File V) (state geom var : String) (fr vfr : Frame V)
     (cols : Option (List String)) (loc : Option Nat) (g : Geometry V) (cidx : List Nat)
     (hg : f.geoms.lookup geom = some g) (hx : ExportedFrom g fr cidx)
-    (h : (addVariable f state geom var fr cols loc).2 = none) (hloc : resolveLoc var loc = some 6)
+    (h : (addVariable f state geom var vfr cols loc).2 = none) (hloc : resolveLoc var loc = some 6)
     (s : Session V) (labels : List String) (rows : MeshRows V) (hs : s.mesh = some (labels, rows)) (hgeo : s.geometry = geom)
     (st : Option String) (hst : pickState st s.state = some state) (newLabels : List String)
     (hdisj : newLabels.any (fun l => labels.contains l) = false) :
-    ∃ names idx, resolveCols var cols = some names ∧ colIdx fr.cols names = some idx ∧
+    ∃ names idx, resolveCols var cols = some names ∧ colIdx vfr.cols names = some idx ∧
       (newLabels.length = names.length →
-        impStep (addVariable f state geom var fr cols loc).1 s (.joinVar var st (some newLabels))
+        impStep (addVariable f state geom var vfr cols loc).1 s (.joinVar var st (some newLabels))
           = ({ s with state := some state, mesh := some (labels ++ newLabels, rows.map (fun r => (r.1, r.2 ++
-              cellsOf idx.length (((byElement fr.rows).find? (fun x => x.key == r.1)).map (selRow idx))))) }, none)) := by
-  obtain ⟨names, l, idx, h1, h2, h4, h5, h6, h7⟩ := addVariable_stored f state geom var fr cols loc h
+              cellsOf idx.length (if r.1 ∈ enTarget g vfr then (rowAt vfr.rows r.1).map (selRow idx) else none)))) },
+             none)) := by
+  obtain ⟨g', names, l, idx, v, hg', h1, h2, h4, hb, h5, h6, h7⟩ := addVariable_stored f state geom var vfr cols loc h
+  rw [hg] at hg'
+  obtain rfl := Option.some.inj hg'
   rw [hloc] at h2
   obtain rfl : 6 = l := by simpa using h2
   refine ⟨names, idx, h1, h4, fun hlen => ?_⟩
-  exact joinVar_step_element_nodal_stored _ state geom var fr idx g cidx (by rw [h5]; exact hg) hx h7 h6 s labels rows
-    hs hgeo st hst newLabels hdisj (by rw [hlen, colIdx_length h4])
+  exact joinVar_step_element_nodal_stored _ state geom var fr vfr idx g cidx v (by rw [h5]; exact hg) hx hb h7 h6 s labels
+    rows hs hgeo st hst newLabels hdisj (by rw [hlen, colIdx_length h4])
+
+/-- … and when the keys of `vfr` are a rearrangement of the keys of the geometry's frame: every mesh row of the geometry
+gets the cells of the row of `vfr` with its key - for ANY row order of `vfr`. -/
+theorem joinVar_step_element_nodal_any_order [Cell V] (f : File V) (state geom var : String) (fr vfr : Frame V)
+    (cols : Option (List String)) (loc : Option Nat) (g : Geometry V) (cidx : List Nat)
+    (hperm : (vfr.rows.map Row.key).Perm (fr.rows.map Row.key))
+    (hg : f.geoms.lookup geom = some g) (hx : ExportedFrom g fr cidx)
+    (h : (addVariable f state geom var vfr cols loc).2 = none) (hloc : resolveLoc var loc = some 6)
+    (s : Session V) (labels : List String) (rows : MeshRows V) (hs : s.mesh = some (labels, rows)) (hgeo : s.geometry = geom)
+    (st : Option String) (hst : pickState st s.state = some state) (newLabels : List String)
+    (hdisj : newLabels.any (fun l => labels.contains l) = false)
+    (hrows : ∀ r ∈ rows, r.1 ∈ fr.rows.map Row.key) :
+    ∃ names idx, resolveCols var cols = some names ∧ colIdx vfr.cols names = some idx ∧
+      (newLabels.length = names.length →
+        impStep (addVariable f state geom var vfr cols loc).1 s (.joinVar var st (some newLabels))
+          = ({ s with state := some state, mesh := some (labels ++ newLabels, rows.map (fun r => (r.1, r.2 ++
+              cellsOf idx.length ((rowAt vfr.rows r.1).map (selRow idx))))) }, none)) := by
+  obtain ⟨names, idx, h1, h4, hstep⟩ := joinVar_step_element_nodal f state geom var fr vfr cols loc g cidx hg hx h hloc
+    s labels rows hs hgeo st hst newLabels hdisj
+  refine ⟨names, idx, h1, h4, fun hlen => ?_⟩
+  rw [hstep hlen]
+  congr 4
+  apply List.map_congr_left
+  intro r hr
+  rw [if_pos]
+  rw [(enTarget_any_row_order g fr vfr cidx hx hperm).1]
+  have := hrows r hr
+  rw [← ((byElement_perm fr.rows).map Row.key).mem_iff] at this
+  exact this
 
 /-! ### Whole reads -/
 
@@ -275,7 +321,7 @@ theorem roundtrip_node_variable [Cell V] (f : File V) (state geom var : String) 
     ⟨some ([], (meshIndex g).map (fun k => (k, []))), geom, some state⟩ [] _ rfl rfl none rfl labels (by simp)
   refine ⟨names, idx, h1, h4, fun hlen => ?_⟩
   have hg' : (addVariable f state geom var fr cols loc).1.geoms.lookup geom = some g := by
-    rw [(addVariable_stored f state geom var fr cols loc h).choose_spec.choose_spec.choose_spec.2.2.2.1]; exact hg
+    rw [addVariable_geoms]; exact hg
   simp only [readFrame, runChain]
   rw [show impStep (addVariable f state geom var fr cols loc).1 s (.makeMesh geom (some state))
       = (⟨some ([], (meshIndex g).map (fun k => (k, []))), geom, some state⟩, none) by simp only [impStep, hg']]
@@ -288,9 +334,58 @@ theorem roundtrip_node_variable [Cell V] (f : File V) (state geom var : String) 
   rw [if_pos hm]
   rfl
 
-/-- **Round trip of an element nodal variable** (valid frame: distinct (element, node) pairs).  Reading the
-variable back returns every exported row's own cells. -/
-theorem roundtrip_element_nodal_variable [Cell V] (f : File V) (state geom var : String) (fr : Frame V)
+/-- **Round trip of an element nodal variable, for ANY row order of the variable's frame.**  The geometry was exported from
+`fr` (valid: distinct (element, node) pairs); the variable is exported from a frame `vfr` whose keys are a permutation of
+`fr`'s keys (e.g. `fr.sort_index()`, reversed, shuffled; other columns, other values).  Reading it back returns, for every
+row of the mesh (ordered as in `roundtrip_mesh`), the cells of THE ROW OF `vfr` WITH THAT (element, node) KEY
+(`roundtrip_element_nodal_row_found`: there is exactly one, so no NaN block appears). -/
+theorem roundtrip_element_nodal_variable [Cell V] (f : File V) (state geom var : String) (fr vfr : Frame V)
+    (cols : Option (List String)) (loc : Option Nat) (g : Geometry V) (cidx : List Nat)
+    (hvalid : (fr.rows.map Row.key).Nodup) (hperm : (vfr.rows.map Row.key).Perm (fr.rows.map Row.key))
+    (hg : f.geoms.lookup geom = some g) (hx : ExportedFrom g fr cidx)
+    (h : (addVariable f state geom var vfr cols loc).2 = none) (hloc : resolveLoc var loc = some 6)
+    (s : Session V) (labels : List String) :
+    ∃ names idx, resolveCols var cols = some names ∧ colIdx vfr.cols names = some idx ∧
+      (labels.length = names.length →
+        (readFrame (addVariable f state geom var vfr cols loc).1 s
+            [.makeMesh geom (some state), .joinVar var none (some labels)]).2
+          = .ok (labels, (byElement fr.rows).map (fun r =>
+              (r.key, cellsOf idx.length ((rowAt vfr.rows r.key).map (selRow idx)))))) := by
+  -- `hvalid` is the premise of the property; the proof does not need it (`h` and `hperm` imply it: the exporter refuses
+  -- duplicate keys); it is what makes the partner row unique (`roundtrip_element_nodal_row_found`)
+  have _ := hvalid
+  obtain ⟨names, idx, h1, h4, hstep⟩ := joinVar_step_element_nodal f state geom var fr vfr cols loc g cidx hg hx h hloc
+    ⟨some ([], (meshIndex g).map (fun k => (k, []))), geom, some state⟩ [] _ rfl rfl none rfl labels (by simp)
+  refine ⟨names, idx, h1, h4, fun hlen => ?_⟩
+  have hg' : (addVariable f state geom var vfr cols loc).1.geoms.lookup geom = some g := by
+    rw [addVariable_geoms]; exact hg
+  simp only [readFrame, runChain]
+  rw [show impStep (addVariable f state geom var vfr cols loc).1 s (.makeMesh geom (some state))
+      = (⟨some ([], (meshIndex g).map (fun k => (k, []))), geom, some state⟩, none) by simp only [impStep, hg']]
+  simp only [hstep hlen]
+  simp only [toFrame, hx.mesh, List.map_map, Function.comp_def, List.nil_append]
+  congr 2
+  apply List.map_congr_left
+  intro a ha
+  rw [if_pos]
+  rw [(enTarget_any_row_order g fr vfr cidx hx hperm).1]
+  exact List.mem_map_of_mem ha
+
+/-- Corollary to `roundtrip_element_nodal_variable`: under its hypotheses every row `r` of the geometry's frame has exactly
+one partner in the variable's frame - the look-up `rowAt vfr.rows r.key` returns it - so the frame read back contains no
+NaN block. -/
+theorem roundtrip_element_nodal_row_found (fr vfr : Frame V)
+    (hvalid : (fr.rows.map Row.key).Nodup) (hperm : (vfr.rows.map Row.key).Perm (fr.rows.map Row.key))
+    (r : Row V) (hr : r ∈ fr.rows) :
+    ∃ r', rowAt vfr.rows r.key = some r' ∧ r' ∈ vfr.rows ∧ r'.key = r.key ∧
+      ∀ r'' ∈ vfr.rows, r''.key = r.key → r'' = r' := by
+  obtain ⟨r', h1, h2, h3⟩ := rowAt_of_mem (hperm.mem_iff.2 (List.mem_map_of_mem hr))
+  refine ⟨r', h1, h2, h3, fun r'' h4 h5 => ?_⟩
+  exact List.inj_on_of_nodup_map (hperm.nodup_iff.2 hvalid) h4 h2 (h5.trans h3.symm)
+
+/-- **Round trip of an element nodal variable exported from the geometry's own frame** (valid frame: distinct (element, node)
+pairs).  Reading the variable back returns every exported row's own cells. -/
+theorem roundtrip_element_nodal_variable_same_frame [Cell V] (f : File V) (state geom var : String) (fr : Frame V)
     (cols : Option (List String)) (loc : Option Nat) (g : Geometry V) (cidx : List Nat)
     (hvalid : (fr.rows.map Row.key).Nodup)
     (hg : f.geoms.lookup geom = some g) (hx : ExportedFrom g fr cidx)
@@ -301,16 +396,10 @@ theorem roundtrip_element_nodal_variable [Cell V] (f : File V) (state geom var :
         (readFrame (addVariable f state geom var fr cols loc).1 s
             [.makeMesh geom (some state), .joinVar var none (some labels)]).2
           = .ok (labels, (byElement fr.rows).map (fun r => (r.key, (selRow idx r).map some)))) := by
-  obtain ⟨names, idx, h1, h4, hstep⟩ := joinVar_step_element_nodal f state geom var fr cols loc g cidx hg hx h hloc
-    ⟨some ([], (meshIndex g).map (fun k => (k, []))), geom, some state⟩ [] _ rfl rfl none rfl labels (by simp)
+  obtain ⟨names, idx, h1, h4, hread⟩ := roundtrip_element_nodal_variable f state geom var fr fr cols loc g cidx hvalid
+    (List.Perm.refl _) hg hx h hloc s labels
   refine ⟨names, idx, h1, h4, fun hlen => ?_⟩
-  have hg' : (addVariable f state geom var fr cols loc).1.geoms.lookup geom = some g := by
-    rw [(addVariable_stored f state geom var fr cols loc h).choose_spec.choose_spec.choose_spec.2.2.2.1]; exact hg
-  simp only [readFrame, runChain]
-  rw [show impStep (addVariable f state geom var fr cols loc).1 s (.makeMesh geom (some state))
-      = (⟨some ([], (meshIndex g).map (fun k => (k, []))), geom, some state⟩, none) by simp only [impStep, hg']]
-  simp only [hstep hlen]
-  simp only [toFrame, hx.mesh, List.map_map, Function.comp_def, List.nil_append]
+  rw [hread hlen]
   congr 2
   apply List.map_congr_left
   intro a ha
@@ -433,12 +522,8 @@ theorem exported_persists_addGeometry [Cell V] (f : File V) (name : String) (fr'
 
 theorem exported_persists_addVariable [Cell V] (f : File V) (state gname var : String) (fr' : Frame V)
     (cols : Option (List String)) (loc : Option Nat) :
-    (addVariable f state gname var fr' cols loc).1.geoms = f.geoms := by
-  cases he : (addVariable f state gname var fr' cols loc).2 with
-  | some e => exact (addVariable_err he).1
-  | none =>
-    obtain ⟨_, _, _, _, _, _, _, h5, _⟩ := addVariable_ok he
-    exact h5
+    (addVariable f state gname var fr' cols loc).1.geoms = f.geoms :=
+  addVariable_geoms f state gname var fr' cols loc
 
 theorem addSet_lookup_ne (f : File V) (kind : Nat) (gname : String) (ids : List Int) (fr' : Frame V)
     (nameOk : Bool) (name : String) (geom : String) (hn : geom ≠ gname) :
@@ -462,7 +547,7 @@ theorem exported_persists_addSet [Cell V] (f : File V) (kind : Nat) (gname : Str
     · subst hn
       rw [hg] at hg0
       cases hg0
-      exact ⟨_, hg1, ⟨hx.mesh, hx.ids, hx.coords, hx.ncoord, hx.ncoord_len, hx.cidx⟩⟩
+      exact ⟨_, hg1, ⟨hx.mesh, hx.ids, hx.coords, hx.ncoord, hx.ncoord_len, hx.cidx, hx.elems⟩⟩
     · refine ⟨g, ?_, hx⟩
       rw [addSet_lookup_ne _ _ _ _ _ _ _ _ hn]
       exact hg
@@ -500,23 +585,64 @@ theorem addGeometry_history_independent [Cell V] (f f' : File V) (name : String)
     | error e => simp only [eraseKey_append_self h, eraseKey_append_self h', h, h', and_self]
     | ok els => simp only [lookup_setKey_append, and_self]
 
-theorem addVariable_succeeds [Cell V] (f : File V) (state geom var : String) (fr : Frame V)
-    (cols : Option (List String)) (loc : Option Nat) (names : List String) (l : Nat)
-    (hg : (f.geoms.lookup geom).isSome = true) (hfree : f.vars.lookup (state, geom, var) = none)
+/-- **A valid `add_variable` succeeds** (general form): the geometry exists, the variable name is free under (state,
+geometry), column names and location resolve, the ids fit, the columns exist and can be stored; for ELEMENT_NODAL the keys of
+the frame are distinct and are a rearrangement of the stored (element, node) pairs of the elements that occur in the frame
+(whole elements of the geometry, in any row order). -/
+theorem addVariable_succeeds_of_target [Cell V] (f : File V) (state geom var : String) (vfr : Frame V)
+    (cols : Option (List String)) (loc : Option Nat) (names : List String) (l : Nat) (g : Geometry V)
+    (hg : f.geoms.lookup geom = some g) (hfree : f.vars.lookup (state, geom, var) = none)
     (hc : resolveCols var cols = some names) (hl : resolveLoc var loc = some l) (hl26 : l = 2 ∨ l = 6)
-    (hids : varIdsFit l fr = true) (hcols : ∀ c ∈ names, c ∈ fr.cols ∧ c ∉ fr.objCols) :
-    (addVariable f state geom var fr cols loc).2 = none := by
+    (hids : varIdsFit l vfr = true) (hcols : ∀ c ∈ names, c ∈ vfr.cols ∧ c ∉ vfr.objCols)
+    (hen : l = 6 → (vfr.rows.map Row.key).Nodup ∧ (vfr.rows.map Row.key).Perm (enTarget g vfr)) :
+    (addVariable f state geom var vfr cols loc).2 = none := by
   obtain ⟨_, e2, _⟩ := ensureGroup_facts f state geom
   have hidx := colIdx_of_mem (fun c hc => (hcols c hc).1)
   have hobj := any_objCols_false (fun c hc => (hcols c hc).2)
-  have hgn : (f.geoms.lookup geom).isNone = false := by
-    cases hh : f.geoms.lookup geom with
-    | none => rw [hh] at hg; cases hg
-    | some x => rfl
   have hl' : ¬ (l ≠ 2 ∧ l ≠ 6) := by omega
+  have hb : ∃ v, buildVariable l g vfr (names.map (fun n => vfr.cols.idxOf n)) = some v := by
+    rcases hl26 with rfl | rfl
+    · exact ⟨_, rfl⟩
+    · exact ⟨_, buildVariable_six_of_perm _ (hen rfl).1 (hen rfl).2⟩
+  obtain ⟨v, hb⟩ := hb
   unfold addVariable addVariableCore
-  simp only [hgn, e2, hfree, hc, hl, hl', hids, hidx, hobj, Option.isSome_none, Bool.not_true, Bool.false_eq_true,
+  simp only [hg, e2, hfree, hc, hl, hl', hids, hidx, hobj, hb, Option.isSome_none, Bool.not_true, Bool.false_eq_true,
     if_false]
+
+/-- **A valid `add_variable` succeeds**: as above; for ELEMENT_NODAL the geometry was exported from a valid frame `fr`
+(distinct (element, node) pairs) and the keys of the variable's frame are a permutation of `fr`'s keys - ANY row order. -/
+theorem addVariable_succeeds [Cell V] (f : File V) (state geom var : String) (vfr : Frame V)
+    (cols : Option (List String)) (loc : Option Nat) (names : List String) (l : Nat) (g : Geometry V)
+    (hg : f.geoms.lookup geom = some g) (hfree : f.vars.lookup (state, geom, var) = none)
+    (hc : resolveCols var cols = some names) (hl : resolveLoc var loc = some l) (hl26 : l = 2 ∨ l = 6)
+    (hids : varIdsFit l vfr = true) (hcols : ∀ c ∈ names, c ∈ vfr.cols ∧ c ∉ vfr.objCols)
+    (hen : l = 6 → ∃ fr cidx, ExportedFrom g fr cidx ∧ (fr.rows.map Row.key).Nodup ∧
+      (vfr.rows.map Row.key).Perm (fr.rows.map Row.key)) :
+    (addVariable f state geom var vfr cols loc).2 = none := by
+  apply addVariable_succeeds_of_target f state geom var vfr cols loc names l g hg hfree hc hl hl26 hids hcols
+  intro h6
+  obtain ⟨fr, cidx, hx, hvalid, hperm⟩ := hen h6
+  exact buildVariable_six_of_keys_perm hx hvalid hperm
+
+/-- A call that is refused for its arguments (unknown geometry, no column names / location, ids that do not fit) leaves the
+file exactly as it was - not even an empty group. -/
+theorem refused_addVariable_creates_nothing [Cell V] (f : File V) (state geom var : String) (fr : Frame V)
+    (cols : Option (List String)) (loc : Option Nat)
+    (h : f.geoms.lookup geom = none ∨ resolveCols var cols = none ∨ resolveLoc var loc = none ∨
+         (∃ l, resolveLoc var loc = some l ∧ ((l ≠ 2 ∧ l ≠ 6) ∨ varIdsFit l fr = false))) :
+    (addVariable f state geom var fr cols loc).1 = f ∧ (addVariable f state geom var fr cols loc).2 ≠ none := by
+  rcases addVariable_cases f state geom var fr cols loc with ⟨hf, hne, _⟩ | ⟨g, names, l, hg, hc, hl, hl26, hfit, _⟩
+  · exact ⟨hf, hne⟩
+  · exfalso
+    rcases h with h | h | h | ⟨l', hl', h⟩
+    · rw [hg] at h; cases h
+    · rw [hc] at h; cases h
+    · rw [hl] at h; cases h
+    · rw [hl] at hl'
+      obtain rfl := Option.some.inj hl'
+      rcases h with h | h
+      · omega
+      · rw [hfit] at h; cases h
 
 theorem addSet_succeeds (f : File V) (kind : Nat) (geom : String) (ids : List Int) (fr : Frame V) (name : String)
     (hg : (f.geoms.lookup geom).isSome = true) (hsub : ∀ i ∈ ids, i ∈ idsOf kind fr) (hfit : ∀ i ∈ ids, fits32 i = true) :
@@ -570,11 +696,8 @@ theorem addSet_refuses_overflow (f : File V) (kind : Nat) (geom : String) (ids :
 theorem addVariable_ok_ids_fit [Cell V] (f : File V) (state geom var : String) (fr : Frame V)
     (cols : Option (List String)) (loc : Option Nat) (h : (addVariable f state geom var fr cols loc).2 = none) :
     ∃ l, resolveLoc var loc = some l ∧ varIdsFit l fr = true := by
-  unfold addVariable at h
-  split at h
-  · simp at h
-  · obtain ⟨_, l, _, _, h2, _, _, _, _, _, _, _, hfit⟩ := addVariableCore_ok h
-    exact ⟨l, h2, hfit⟩
+  obtain ⟨_, _, l, _, _, _, _, h2, _, hfit, _⟩ := addVariable_ok h
+  exact ⟨l, h2, hfit⟩
 
 /-! ### Element types -/
 
@@ -626,30 +749,22 @@ theorem vars_persist_addVariable [Cell V] (f : File V) (state geom var : String)
   cases he : (addVariable f state geom var fr cols loc).2 with
   | some e => rw [(addVariable_err he).2.1]; exact h
   | none =>
-    unfold addVariable at he ⊢
-    split at he
-    · simp at he
-    · rename_i hgeo
-      simp only [hgeo, if_false, Bool.false_eq_true]
-      obtain ⟨names, l, idx, _, _, _, _, _, _, _, hfree, hvars, _⟩ := addVariableCore_ok he
-      obtain ⟨_, e2, _⟩ := ensureGroup_facts f state geom
-      rw [hvars, e2]
-      rw [e2] at hfree
-      have hne : k ≠ (state, geom, var) := by
-        rintro rfl
-        rw [hfree] at h
-        cases h
-      rw [lookup_setKey_ne _ hne]
-      exact lookup_append_of_some h
+    obtain ⟨_, _, _, _, _, _, _, _, _, _, _, _, _, _, _, hfree, hvars⟩ := addVariable_ok he
+    rw [hvars]
+    have hne : k ≠ (state, geom, var) := by
+      rintro rfl
+      rw [hfree] at h
+      cases h
+    rw [lookup_setKey_ne _ hne]
+    exact lookup_append_of_some h
 
 theorem groups_persist_addVariable [Cell V] (f : File V) (state geom var : String) (fr : Frame V)
     (cols : Option (List String)) (loc : Option Nat) :
     ∀ p ∈ f.groups, p ∈ (addVariable f state geom var fr cols loc).1.groups := by
   intro p hp
-  unfold addVariable
-  split
-  · exact hp
-  · rw [(addVariableCore_groups _ state geom var fr cols loc).1]
+  rcases addVariable_cases f state geom var fr cols loc with ⟨hf, _, _⟩ | ⟨g, names, l, _, _, _, _, _, heq⟩
+  · rw [hf]; exact hp
+  · rw [heq, (addVariableCore_groups _ g state geom var fr names l).1]
     exact (ensureGroup_facts f state geom).2.2.2.2 p hp
 
 theorem vars_persist_addSet (f : File V) (kind : Nat) (geom : String) (ids : List Int) (fr : Frame V)
@@ -719,6 +834,8 @@ instance : Cell ExV where
   beq a b := match a, b with | .v m, .v n => m == n | _, _ => false     -- IEEE: NaN ≠ NaN
   isNull a := match a with | .nan => true | _ => false
 
+deriving instance DecidableEq for Variable
+
 open ExV in
 def exFrame : Frame ExV :=
   ⟨["x", "y", "z", "d", "p", "q"], [],
@@ -741,6 +858,20 @@ def exLine : Frame ExV := ⟨["x", "y"], [], [⟨1, 1, [.v 0, .v 0]⟩, ⟨1, 2,
 def exObj : Frame ExV := { exFrame with objCols := ["y", "d"] }
 
 def exFile : File ExV := (addGeometry File.empty "g" exFrame).1
+
+/-- `exFrame.sort_index()`: the same (element, node) pairs sorted, another column, other values -/
+def exSorted : Frame ExV :=
+  ⟨["s"], [],
+   [⟨2, 1, [.v 201]⟩, ⟨2, 3, [.v 203]⟩, ⟨2, 4, [.v 204]⟩, ⟨2, 5, [.v 205]⟩, ⟨7, 1, [.v 701]⟩, ⟨7, 2, [.v 702]⟩,
+    ⟨7, 3, [.v 703]⟩]⟩
+/-- `exFrame` with its rows reversed -/
+def exRev : Frame ExV := { exFrame with rows := exFrame.rows.reverse }
+/-- a row missing (2, 1); an extra row (7, 4); an extra row of an unknown element; a duplicate key (7, 3); element 7 only -/
+def exMissing : Frame ExV := { exSorted with rows := exSorted.rows.drop 1 }
+def exExtra : Frame ExV := { exSorted with rows := exSorted.rows ++ [⟨7, 4, [.v 704]⟩] }
+def exExtraElem : Frame ExV := { exSorted with rows := exSorted.rows ++ [⟨9, 1, [.v 901]⟩] }
+def exDup : Frame ExV := { exSorted with rows := exSorted.rows ++ [⟨7, 3, [.v 999]⟩] }
+def exOnly7 : Frame ExV := { exSorted with rows := exSorted.rows.drop 4 }
 
 -- hypotheses of roundtrip_mesh / roundtrip_coordinates / exported_after_addGeometry / stored_element_types /
 -- addGeometry_ok_ids_fit
@@ -781,6 +912,49 @@ example : (readFrame (addVariable exFile "s" "g" "EN" exFrame (some ["p"]) (some
     = .ok (["q"], [((2, 5), [some (.v 101)]), ((2, 1), [some (.v 103)]), ((2, 3), [some (.v 105)]),
         ((2, 4), [some (.v 106)]), ((7, 1), [some (.v 100)]), ((7, 2), [some (.v 102)]), ((7, 3), [some (.v 104)])]) := by
   decide
+-- ANY ROW ORDER: hypotheses of roundtrip_element_nodal_variable / addVariable_succeeds (l = 6) for the sorted frame, the
+-- reversed frame and the frame itself …
+example : (exSorted.rows.map Row.key).Perm (exFrame.rows.map Row.key)
+    ∧ (exRev.rows.map Row.key).Perm (exFrame.rows.map Row.key) := by decide
+example : (addVariable exFile "s" "g" "ENS" exSorted (some ["s"]) (some 6)).2 = none
+    ∧ (addVariable exFile "s" "g" "ENR" exRev (some ["p"]) (some 6)).2 = none
+    ∧ varIdsFit 6 exSorted = true ∧ colIdx exSorted.cols ["s"] = some [0] := by decide
+-- … the frame read back has each key's own value (mesh order: element 2 with nodes 5 1 3 4, then element 7) …
+example : (readFrame (addVariable exFile "s" "g" "ENS" exSorted (some ["s"]) (some 6)).1 Session.init
+    [.makeMesh "g" (some "s"), .joinVar "ENS" none (some ["q"])]).2
+    = .ok (["q"], [((2, 5), [some (.v 205)]), ((2, 1), [some (.v 201)]), ((2, 3), [some (.v 203)]),
+        ((2, 4), [some (.v 204)]), ((7, 1), [some (.v 701)]), ((7, 2), [some (.v 702)]), ((7, 3), [some (.v 703)])]) := by
+  decide
+-- … the reversed frame gives the same file content and the same frame read back as the frame itself …
+example : (addVariable exFile "s" "g" "EN" exRev (some ["p"]) (some 6)).1.vars
+    = (addVariable exFile "s" "g" "EN" exFrame (some ["p"]) (some 6)).1.vars := by decide
+example : (readFrame (addVariable exFile "s" "g" "EN" exRev (some ["p"]) (some 6)).1 Session.init
+    [.makeMesh "g" (some "s"), .joinVar "EN" none (some ["q"])]).2
+    = .ok (["q"], [((2, 5), [some (.v 101)]), ((2, 1), [some (.v 103)]), ((2, 3), [some (.v 105)]),
+        ((2, 4), [some (.v 106)]), ((7, 1), [some (.v 100)]), ((7, 2), [some (.v 102)]), ((7, 3), [some (.v 104)])]) := by
+  decide
+-- … a frame with a row missing / an extra row (known or unknown element) / a duplicate key is refused and the file keeps
+-- its variables (here: none; a file with variables: below, `exF2`) …
+example : (addVariable exFile "s" "g" "V" exMissing (some ["s"]) (some 6)).2 = some .exportErr
+    ∧ (addVariable exFile "s" "g" "V" exExtra (some ["s"]) (some 6)).2 = some .exportErr
+    ∧ (addVariable exFile "s" "g" "V" exExtraElem (some ["s"]) (some 6)).2 = some .exportErr
+    ∧ (addVariable exFile "s" "g" "V" exDup (some ["s"]) (some 6)).2 = some .exportErr := by decide
+example : (addVariable exFile "s" "g" "V" exMissing (some ["s"]) (some 6)).1.vars = exFile.vars
+    ∧ (addVariable exFile "s" "g" "V" exExtra (some ["s"]) (some 6)).1.vars = exFile.vars
+    ∧ (addVariable exFile "s" "g" "V" exDup (some ["s"]) (some 6)).1.vars = exFile.vars := by decide
+-- … and whole elements of the geometry are accepted (element 7 only): the rows of element 2 read back as NaN cells
+example : (readFrame (addVariable exFile "s" "g" "E7" exOnly7 (some ["s"]) (some 6)).1 Session.init
+    [.makeMesh "g" (some "s"), .joinVar "E7" none (some ["q"])]).2
+    = .ok (["q"], [((2, 5), [none]), ((2, 1), [none]), ((2, 3), [none]),
+        ((2, 4), [none]), ((7, 1), [some (.v 701)]), ((7, 2), [some (.v 702)]), ((7, 3), [some (.v 703)])]) := by
+  decide
+-- hypotheses of refused_addVariable_creates_nothing: unknown geometry, no default columns, no default location, a location
+-- that is no member, ids that do not fit; nothing is created (compare the colIdx failure below, which leaves the group)
+example : exFile.geoms.lookup "nogeo" = none ∧ resolveCols "V" none = none ∧ resolveLoc "V" none = none
+    ∧ resolveLoc "V" (some 5) = some 5 ∧ varIdsFit 2 exBig = false := by decide
+example : (addVariable exFile "s" "g" "V" exBig (some ["x"]) (some 2)).1.groups = []
+    ∧ (addVariable exFile "s" "g" "V" exFrame none (some 2)).1.groups = []
+    ∧ (addVariable exFile "s" "g" "V" exFrame (some ["d"]) (some 5)).1.groups = [] := by decide
 -- hypotheses of addVariable_succeeds
 example : (exFile.geoms.lookup "g").isSome = true ∧ exFile.vars.lookup ("s", "g", "N") = none
     ∧ resolveCols "N" (some ["d", "q"]) = some ["d", "q"] ∧ resolveLoc "N" (some 2) = some 2
@@ -814,7 +988,17 @@ example : (addSet exFile 0 "g" [2147483648] exBig true "A").2 = some .overflow :
 refused variable.  The hypotheses of the `*_stored` step theorems hold in the final file, and a chain of a shape other
 than `[makeMesh, joinVar]` (filter, coordinates, two variables) reads what the step theorems say. -/
 
-deriving instance DecidableEq for Variable
+/-- what the two variables of the history below store -/
+def exN : Variable ExV := ⟨2, 2, nodeIds exFrame, (nodeIds exFrame).map (nodeValue exFrame.rows [3, 5])⟩
+def exEN : Variable ExV :=
+  ⟨6, 1, [2, 7], [[.v 101], [.v 103], [.v 105], [.v 106], [.v 100], [.v 102], [.v 104]]⟩
+
+/-- `exEN` is what `add_variable` builds from column `p` of `exFrame` for ANY geometry exported from `exFrame` (whatever
+sets were added to it since). -/
+theorem exEN_built (g : Geometry ExV) (cidx : List Nat) (hx : ExportedFrom g exFrame cidx) :
+    buildVariable 6 g exFrame [4] = some exEN := by
+  rw [buildVariable_exported hx]
+  decide
 
 def exF1 : File ExV := (addVariable exFile "s" "g" "N" exFrame (some ["d", "q"]) (some 2)).1
 def exF2 : File ExV := (addVariable exF1 "s" "g" "EN" exFrame (some ["p"]) (some 6)).1
@@ -844,10 +1028,10 @@ theorem exFile2_exported : ∃ g idx, exFile2.geoms.lookup "g" = some g ∧ Expo
   exact h5
 
 /-- … and the variables written at the beginning are still there (persistence theorems, not evaluation). -/
-theorem exFile2_vars : exFile2.vars.lookup ("s", "g", "N") = some (buildVariable 2 exFrame [3, 5])
-    ∧ exFile2.vars.lookup ("s", "g", "EN") = some (buildVariable 6 exFrame [4]) ∧ ("s", "g") ∈ exFile2.groups := by
-  have a1 : exF1.vars.lookup ("s", "g", "N") = some (buildVariable 2 exFrame [3, 5]) := by decide
-  have b2 : exF2.vars.lookup ("s", "g", "EN") = some (buildVariable 6 exFrame [4]) := by decide
+theorem exFile2_vars : exFile2.vars.lookup ("s", "g", "N") = some exN
+    ∧ exFile2.vars.lookup ("s", "g", "EN") = some exEN ∧ ("s", "g") ∈ exFile2.groups := by
+  have a1 : exF1.vars.lookup ("s", "g", "N") = some exN := by decide
+  have b2 : exF2.vars.lookup ("s", "g", "EN") = some exEN := by decide
   have c2 : ("s", "g") ∈ exF2.groups := by decide
   have a2 := vars_persist_addVariable exF1 "s" "g" "EN" exFrame (some ["p"]) (some 6) _ _ a1
   have e5 : exF5.vars = exF4.vars := (vars_persist_addSet exF4 0 "g" [3, 1] exFrame true "FIX").1
@@ -878,10 +1062,12 @@ example (s : Session ExV) (labels : List String) (rows : MeshRows ExV) (hs : s.m
     (hgeo : s.geometry = "g") (hd : ["pp"].any (fun l => labels.contains l) = false) :
     impStep exFile2 s (.joinVar "EN" (some "s") (some ["pp"]))
       = ({ s with state := some "s", mesh := some (labels ++ ["pp"], rows.map (fun r => (r.1, r.2 ++
-          cellsOf 1 (((byElement exFrame.rows).find? (fun x => x.key == r.1)).map (selRow [4]))))) }, none) := by
+          cellsOf 1 (if r.1 ∈ (byElement exFrame.rows).map Row.key
+            then (rowAt exFrame.rows r.1).map (selRow [4]) else none)))) }, none) := by
   obtain ⟨g, cidx, hg, hx⟩ := exFile2_exported
-  exact joinVar_step_element_nodal_stored exFile2 "s" "g" "EN" exFrame [4] g cidx hg hx exFile2_vars.2.1
-    exFile2_vars.2.2 s labels rows hs hgeo (some "s") rfl _ hd rfl
+  rw [← (enTarget_any_row_order g exFrame exFrame cidx hx (List.Perm.refl _)).1]
+  exact joinVar_step_element_nodal_stored exFile2 "s" "g" "EN" exFrame exFrame [4] g cidx exEN hg hx (exEN_built g cidx hx)
+    exFile2_vars.2.1 exFile2_vars.2.2 s labels rows hs hgeo (some "s") rfl _ hd rfl
 
 example (s : Session ExV) (labels : List String) (rows : MeshRows ExV) (hs : s.mesh = some (labels, rows))
     (hgeo : s.geometry = "g") (hd : (coordNames exFrame).any (fun l => labels.contains l) = false)
@@ -895,9 +1081,47 @@ example (s : Session ExV) (labels : List String) (rows : MeshRows ExV) (hs : s.m
 -- the new success / refusal theorems applied
 example : (addGeometry exFile "t" exTet).2 = none :=
   addGeometry_succeeds exFile "t" exTet (by decide) ⟨by decide, fun _ h => by simp [exTet] at h, by decide, by decide⟩
-example : (addVariable exFile "s" "g" "N" exFrame (some ["d", "q"]) (some 2)).2 = none :=
-  addVariable_succeeds exFile "s" "g" "N" exFrame _ _ ["d", "q"] 2 (by decide) (by decide) rfl rfl (Or.inl rfl)
-    (by decide) (by decide)
+example : (addVariable exFile "s" "g" "N" exFrame (some ["d", "q"]) (some 2)).2 = none := by
+  obtain ⟨g, _, hg, _⟩ := exported_after_addGeometry (File.empty : File ExV) "g" exFrame (by decide)
+  exact addVariable_succeeds exFile "s" "g" "N" exFrame _ _ ["d", "q"] 2 g hg (by decide) rfl rfl (Or.inl rfl)
+    (by decide) (by decide) (fun h => absurd h (by decide))
+-- ELEMENT_NODAL from the SORTED frame: accepted because its keys are a permutation of the geometry frame's keys …
+example : (addVariable exFile "s" "g" "ENS" exSorted (some ["s"]) (some 6)).2 = none := by
+  obtain ⟨g, cidx, hg, hx⟩ := exported_after_addGeometry (File.empty : File ExV) "g" exFrame (by decide)
+  exact addVariable_succeeds exFile "s" "g" "ENS" exSorted _ _ ["s"] 6 g hg (by decide) rfl rfl (Or.inr rfl)
+    (by decide) (by decide) (fun _ => ⟨exFrame, cidx, hx, by decide, by decide⟩)
+-- … and the round-trip theorem applied to it, on any importer state: every mesh row gets the cells of the row of the SORTED
+-- frame with its key
+example (s : Session ExV) :
+    (readFrame (addVariable exFile "s" "g" "ENS" exSorted (some ["s"]) (some 6)).1 s
+        [.makeMesh "g" (some "s"), .joinVar "ENS" none (some ["q"])]).2
+      = .ok (["q"], (byElement exFrame.rows).map (fun r =>
+          (r.key, cellsOf 1 ((rowAt exSorted.rows r.key).map (selRow [0]))))) := by
+  obtain ⟨g, cidx, hg, hx⟩ := exported_after_addGeometry (File.empty : File ExV) "g" exFrame (by decide)
+  obtain ⟨names, idx, h1, h4, hread⟩ := roundtrip_element_nodal_variable exFile "s" "g" "ENS" exFrame exSorted
+    (some ["s"]) (some 6) g cidx (by decide) (by decide) hg hx (by decide) rfl s ["q"]
+  cases h1
+  have h4' : colIdx exSorted.cols ["s"] = some [0] := by decide
+  rw [h4'] at h4
+  cases h4
+  exact hread rfl
+-- the values behind those look-ups, and the partner row the corollary promises
+example : (byElement exFrame.rows).map (fun r => (r.key, cellsOf 1 ((rowAt exSorted.rows r.key).map (selRow [0]))))
+    = [((2, 5), [some (.v 205)]), ((2, 1), [some (.v 201)]), ((2, 3), [some (.v 203)]),
+        ((2, 4), [some (.v 204)]), ((7, 1), [some (.v 701)]), ((7, 2), [some (.v 702)]), ((7, 3), [some (.v 703)])] := by
+  decide
+example : ∃ r', rowAt exSorted.rows (2, 5) = some r' ∧ r' ∈ exSorted.rows ∧ r'.key = (2, 5) ∧
+    ∀ r'' ∈ exSorted.rows, r''.key = (2, 5) → r'' = r' :=
+  roundtrip_element_nodal_row_found exFrame exSorted (by decide) (by decide) ⟨2, 5, [.v 1, .v 0, .v 0, .v 50, .v 101, .v 5]⟩
+    (by simp [exFrame])
+-- a refused frame leaves the variables of a file that has some (the `N` and `EN` of `exF2`)
+example : (addVariable exF2 "s" "g" "V" exMissing (some ["s"]) (some 6)).2 = some .exportErr
+    ∧ (addVariable exF2 "s" "g" "V" exMissing (some ["s"]) (some 6)).1.vars.lookup ("s", "g", "EN") = some exEN
+    ∧ (addVariable exF2 "s" "g" "V" exDup (some ["s"]) (some 6)).1.vars.lookup ("s", "g", "N") = some exN
+    ∧ ((addVariable exF2 "s" "g" "V" exDup (some ["s"]) (some 6)).1.vars.map (·.1)) = exF2.vars.map (·.1) := by decide
+example (f : File ExV) : (addVariable f "s" "g" "V" exBig (some ["x"]) (some 2)).1 = f
+    ∧ (addVariable f "s" "g" "V" exBig (some ["x"]) (some 2)).2 ≠ none :=
+  refused_addVariable_creates_nothing f "s" "g" "V" exBig _ _ (Or.inr (Or.inr (Or.inr ⟨2, rfl, Or.inr (by decide)⟩)))
 example : (addSet exFile 0 "g" [3, 1] exFrame true "FIX").2 = none :=
   addSet_succeeds exFile 0 "g" [3, 1] exFrame "FIX" (by decide) (by decide) (by decide)
 example (f : File ExV) (name : String) : (addGeometry f name exBig).2 ≠ none ∧ (addGeometry f name exBig).1 = f :=
@@ -906,8 +1130,8 @@ example (f : File ExV) (fr : Frame ExV) :
     (addSet f 0 "g" [1, 2147483648] fr true "A").2 ≠ none ∧ (addSet f 0 "g" [1, 2147483648] fr true "A").1 = f :=
   addSet_refuses_overflow f 0 "g" [1, 2147483648] fr true "A" 2147483648 (by simp) (by decide)
 
-example : exFile2.vars.lookup ("s", "g", "N") = some (buildVariable 2 exFrame [3, 5])
-    ∧ exFile2.vars.lookup ("s", "g", "EN") = some (buildVariable 6 exFrame [4])
+example : exFile2.vars.lookup ("s", "g", "N") = some exN
+    ∧ exFile2.vars.lookup ("s", "g", "EN") = some exEN
     ∧ ("s", "g") ∈ exFile2.groups ∧ (exFile2.geoms.lookup "g").isSome = true
     ∧ colIdx exFrame.cols ["d", "q"] = some [3, 5] := by decide
 example : (readFrame exFile2 Session.init
